@@ -4964,24 +4964,74 @@ let query_set_table qi pos tid =
               x.q_tables; q_table = x.q_table; q_rare = x.q_rare }))
               (fun _ -> add pos (S (S O))) q)))))
 
+(** val nt_fail_pos : w -> rel list -> nat list -> nat -> nat -> nat **)
+
+let rec nt_fail_pos s rels tables fuel pos =
+  match fuel with
+  | O -> pos
+  | S f ->
+    (match nth_error tables pos with
+     | Some tid ->
+       (match nth_error s.w_tables tid with
+        | Some t ->
+          if Nat.eqb t.t_len O
+          then nt_fail_pos s rels tables f (S pos)
+          else (match tbl_matches t rels with
+                | Some b ->
+                  if b then pos else nt_fail_pos s rels tables f (S pos)
+                | None -> pos)
+        | None -> pos)
+     | None -> pos)
+
+(** val on_err : 'a1 mW -> (w -> w) -> 'a1 mW **)
+
+let on_err m0 h s =
+  match m0 s with
+  | Ok (a, s') -> Ok (a, s')
+  | Err (e, s') -> Err (e, (h s'))
+
 (** val query_next_table : nat -> nat list -> bool -> bool mW **)
 
 let query_next_table qi tables cached =
   bind (getQ qi) (fun q ->
     bind
-      (let rec go fuel pos =
-         match fuel with
-         | O -> ret None
-         | S f ->
-           (match nth_error tables pos with
-            | Some tid ->
-              bind (getT tid) (fun t ->
-                if Nat.eqb t.t_len O
-                then go f (S pos)
-                else bind (of_opt (tbl_matches t q.q_rels) ENil) (fun mt ->
-                       if mt then ret (Some (pos, tid)) else go f (S pos)))
-            | None -> ret None)
-       in go (S (length tables)) (sub q.q_tab (S O))) (fun r ->
+      (on_err
+        (let rec go fuel pos =
+           match fuel with
+           | O -> ret None
+           | S f ->
+             (match nth_error tables pos with
+              | Some tid ->
+                bind (getT tid) (fun t ->
+                  if Nat.eqb t.t_len O
+                  then go f (S pos)
+                  else bind (of_opt (tbl_matches t q.q_rels) ENil) (fun mt ->
+                         if mt then ret (Some (pos, tid)) else go f (S pos)))
+              | None -> ret None)
+         in go (S (length tables)) (sub q.q_tab (S O))) (fun s ->
+        set (fun w0 -> w0.w_queries) (fun f ->
+          let l = fun r -> f r.w_queries in
+          (fun x -> { w_cfg = x.w_cfg; w_reg = x.w_reg; w_pool = x.w_pool;
+          w_index = x.w_index; w_istarget = x.w_istarget; w_archs =
+          x.w_archs; w_tables = x.w_tables; w_relarchs = x.w_relarchs;
+          w_compindex = x.w_compindex; w_archcount = x.w_archcount;
+          w_version = x.w_version; w_cheap = x.w_cheap; w_centries =
+          x.w_centries; w_cpool = x.w_cpool; w_lock = x.w_lock; w_obs =
+          x.w_obs; w_olists = x.w_olists; w_oagg = x.w_oagg; w_opool =
+          x.w_opool; w_ototal = x.w_ototal; w_omax = x.w_omax; w_filters =
+          x.w_filters; w_queries = (l x); w_res = x.w_res; w_issued =
+          x.w_issued; w_log = x.w_log }))
+          (updf qi (fun q0 ->
+            set (fun q1 -> q1.q_tab) (fun f ->
+              let n0 = fun r -> f r.q_tab in
+              (fun x -> { q_filter = x.q_filter; q_rels = x.q_rels; q_cache =
+              x.q_cache; q_lock = x.q_lock; q_arch = x.q_arch; q_tab =
+              (n0 x); q_index = x.q_index; q_max = x.q_max; q_tables =
+              x.q_tables; q_table = x.q_table; q_rare = x.q_rare }))
+              (fun _ ->
+              add
+                (nt_fail_pos s q.q_rels tables (S (length tables))
+                  (sub q.q_tab (S O))) (S (S O))) q0)) s)) (fun r ->
       match r with
       | Some p0 ->
         let (pos, tid) = p0 in
@@ -5057,32 +5107,48 @@ let query_next_archetype qi =
                                           EIndex) (fun tabs ->
                                         bind
                                           (modQ qi (fun q1 ->
-                                            set (fun q2 -> q2.q_tab)
+                                            set (fun q2 -> q2.q_table)
                                               (fun f0 ->
-                                              let n0 = fun r -> f0 r.q_tab in
+                                              let o = fun r -> f0 r.q_table in
                                               (fun x -> { q_filter =
                                               x.q_filter; q_rels = x.q_rels;
                                               q_cache = x.q_cache; q_lock =
                                               x.q_lock; q_arch = x.q_arch;
-                                              q_tab = (n0 x); q_index =
+                                              q_tab = x.q_tab; q_index =
                                               x.q_index; q_max = x.q_max;
                                               q_tables = x.q_tables;
-                                              q_table = x.q_table; q_rare =
-                                              x.q_rare })) (fun _ -> S O)
-                                              (set (fun q2 -> q2.q_tables)
+                                              q_table = (o x); q_rare =
+                                              x.q_rare })) (fun _ -> None)
+                                              (set (fun q2 -> q2.q_tab)
                                                 (fun f0 ->
-                                                let l = fun r -> f0 r.q_tables
+                                                let n0 = fun r -> f0 r.q_tab
                                                 in
                                                 (fun x -> { q_filter =
                                                 x.q_filter; q_rels =
                                                 x.q_rels; q_cache =
                                                 x.q_cache; q_lock = x.q_lock;
                                                 q_arch = x.q_arch; q_tab =
-                                                x.q_tab; q_index = x.q_index;
+                                                (n0 x); q_index = x.q_index;
                                                 q_max = x.q_max; q_tables =
-                                                (l x); q_table = x.q_table;
-                                                q_rare = x.q_rare }))
-                                                (fun _ -> tabs) q1)))
+                                                x.q_tables; q_table =
+                                                x.q_table; q_rare =
+                                                x.q_rare })) (fun _ -> S O)
+                                                (set (fun q2 -> q2.q_tables)
+                                                  (fun f0 ->
+                                                  let l = fun r ->
+                                                    f0 r.q_tables
+                                                  in
+                                                  (fun x -> { q_filter =
+                                                  x.q_filter; q_rels =
+                                                  x.q_rels; q_cache =
+                                                  x.q_cache; q_lock =
+                                                  x.q_lock; q_arch =
+                                                  x.q_arch; q_tab = x.q_tab;
+                                                  q_index = x.q_index;
+                                                  q_max = x.q_max; q_tables =
+                                                  (l x); q_table = x.q_table;
+                                                  q_rare = x.q_rare }))
+                                                  (fun _ -> tabs) q1))))
                                           (fun _ ->
                                           bind
                                             (query_next_table qi tabs false)
